@@ -6,7 +6,7 @@ from collections import Counter
 from ..driver import Clause, Outcome
 from ..langgen import lang_classes
 from ..modelgen import lang_and_model, defenses_of, corelang_models, shipped_spec
-from ..ref_eval import AbstractModel, evaluate
+from ..ref_eval import AbstractModel, evaluate, exact_results
 from ..ref_lang import Lang
 from .c01 import generate_graph
 
@@ -67,9 +67,7 @@ def check_case(case) -> Outcome:
                 has_exist = True
                 reqs = sdef['requires']['stepExpressions'] if sdef['requires'] else []
                 if len(reqs) == 1:
-                    l, u, _ = evaluate(am, frozenset([i]), reqs[0], per_source=True)
-                    l2, u2, _ = evaluate(am, frozenset([i]), reqs[0], per_source=False)
-                    vals = {bool(l), bool(u), bool(l2), bool(u2)}
+                    vals = {bool(r) for r, _ in exact_results(am, frozenset([i]), reqs[0])}
                     if len(vals) == 1:
                         exp['exists'] = vals.pop()
                     else:
